@@ -6,6 +6,8 @@ if grep -rnE '\b(Admitted|admit|Axiom|Parameter|Conjecture|Admit Obligations)\b|
   echo "forbidden construct found" >&2; exit 3
 fi
 rm -rf cases/*
+# regenerate the translator output from /repo's working tree, so that the build never uses a stale coq/Gen
+(cd .. && env PYTHONPATH="$PWD" PYTHONHASHSEED=0 VERIF_REPO="${VERIF_REPO:-/repo}" /venv/bin/python -m harness.gen_all) || echo "setup: a translator refused the source; the affected check will report it"
 coq_makefile -f _CoqProject -o Makefile || exit 2
 timeout 3000 make -j16 || exit 2
 echo "setup ok"
